@@ -232,6 +232,15 @@ def run_case(case):
             labels.add("tag-none" if tag is None else ("tag-0" if tag == 0 else "tag-other"))
             if not want:
                 labels.add("no-candidate")
+        elif op["op"] == "use":
+            # other services of the environment in between: loops over it that are left early, len, lookups by id
+            for _a in env:
+                break
+            next(iter(env), None)
+            any(True for _a in env)
+            len(env)
+            env.get_agent("g0")
+            labels.add("other-services-used")
         else:
             raise InvalidCase(op)
     if CAP > 64:
@@ -270,4 +279,4 @@ def _small(add, rem, retag, toggle, q):
     return st.fixed_dictionaries({"seed": wone_of(st.integers(0, 50), st.integers(-2 ** 70, 2 ** 70)),
                                   "grid": st.sampled_from([False, False, False, True]),
                                   "ops": st.builds(lambda first, rest: first + rest, sized_lists(add, 0, 6),
-                                                   sized_lists(wone_of(add, add, rem, retag, toggle, q, q, q, q), 3, 22))})
+                                                   sized_lists(wone_of(add, add, rem, retag, toggle, q, q, q, q, st.just({"op": "use"})), 3, 22))})
